@@ -1025,7 +1025,7 @@ func (t *repGen) isolate(r *Run, gen, env map[string]*V, seen map[string]bool) i
 // a fixed array survives the conversion to []any). Until the Lean model of Convert follows that
 // patch (corpus/render/array-nil-element.case is the minimal disagreement) the cases that depend
 // on it are still run and judged by the oracle but not handed to the model. Set to true then.
-const modelFollowsArrayNilPatch = false
+const modelFollowsArrayNilPatch = true
 
 func liquidNil(v *V) bool {
 	for v.Kind == 'D' || v.Kind == 'P' {
